@@ -77,6 +77,11 @@ func crashVAAWithID(id vaa.VAAID, i, variant int64) (*vaa.VAA, []byte) {
 	for k := 0; k < 1+int(variant)%3; k++ {
 		var s ref.Sig
 		s.Index = uint8(k)
+		if (variant/3)%2 == 1 {
+			// signatures are not always in ascending guardian order (a peer's copy is stored as received):
+			// what comes back must be what was stored, byte for byte
+			s.Index = uint8(17 - 5*k)
+		}
 		h := crypto.Keccak256([]byte{byte(variant), byte(k), byte(i)})
 		copy(s.Sig[:], append(append(h, h...), 0))
 		rv.Sigs = append(rv.Sigs, s)
